@@ -24,6 +24,14 @@ PROGRAMS = {
               "        LDB #SIZE*2\n", "        LEAX GO+3,PCR\n", "        LDY #GO-2\n", "        FCB SIZE\n", "        RTS\n"],
 }
 
+# the same kind of program written with TAB separators and trailing comments (used by the C17 history / input-frame cells)
+TABBED = {
+    "tabbed": ["\tNAM\tTABBED\n", "OUT\tEQU\t$A30A\n", "\tORG\t$0E00\n", "GO\tLDX\t#MSG\t; pointer\tto text\n", "NEXT\tLDA\t,X+\n",
+               "\tBEQ\tDONE\n", "\tJSR\tOUT\n", "\tBRA\tNEXT\n", "DONE\tLEAY\tMSG,PCR\t; tab\there\n", "\tRTS\n", "MSG\tFCB\t72,73,0\n",
+               "\tEND\tGO\n"],
+    "trailing-space": ["        ORG $0E00   \n", "GO      LDA #1   ; c  \n", "        RTS\r\n"],
+}
+
 REJECTED = {
     "badmnemonic": ["        ORG $0E00\n", "        FOO 12\n"],
     "undefined": ["        LDA NOWHERE\n"],
